@@ -62,6 +62,17 @@ CHECKS = {
  "C17": dict(engine="keyring", design_ref="DESIGN.md 6 C17",
    text="Keyring.tla transcribes parse_config/add_key line by line and is checked by TLC against the declarative contract KeyringContract for every token sequence up to n lines that is not already refused on a prefix; each sequence is rendered in several whitespace / line-ending styles and given to the tree's Keyring::new; verdict (three-valued), entries in order and look-ups are validated by TLC (Trace_Keyring); encoded public keys: every single-character corruption and wrong checksums must be unusable.",
    note="Token alphabet of 17 line classes; names/keys from small value sets incl. 128/129-byte names and an interior tab (the defect D3, fixed)."),
+ "C18": dict(engine="prims", design_ref="DESIGN.md 6 C18, 7",
+   text="Ffi.tla states the frame condition of the exported C function on an abstract caller memory (guards, inputs, exactly dkLen bytes, value = SCRYPT of the arguments in order) and enumerates 5040 call shapes; each (sampled in quick) is made through the working tree's cdylib with guard zones and compared with the library function; the laws the specification assumes of SCRYPT (deterministic, sensitive to every argument, prefix property) are checked on the same grid. The clause 'the in-repository scrypt equals RFC 7914' is NOT decidable by TLC: it is covered only by a supplementary differential comparison with OpenSSL's scrypt (hashlib) on a parameter grid, reported as such.",
+   note="Trusted base for the RFC clause: OpenSSL 3.0 scrypt. TLC contributes the enumeration of call shapes, the frame condition and the laws; it cannot evaluate Salsa20/8 (32-bit integers, no bit operations at scale).",
+   technique="TLA+ frame model + TLC-enumerated call shapes replayed through the C ABI; RFC equality by differential comparison (supplementary)"),
+ "C19": dict(engine="prims", design_ref="DESIGN.md 6 C19, 7",
+   text="Rfc.tla holds (a) the case analysis of the axioms of the symbolic algebra (AEAD open under every kind of change x length classes; X25519 scalar x point classes incl. 14 low-order / non-canonical encodings) with the symbolic verdict, and (b) HMAC (RFC 2104) over SHA256 and HKDF (RFC 5869) over HMAC as terms; TLC enumerates the cases, the driver evaluates each on the exported functions (axioms) resp. evaluates the structural term with the exported inner primitive and compares with the exported outer one; the counter-nonce layout is compared through the hook for counters over the 64-bit range. Leaf primitives vs their RFCs are outside TLC; a supplementary comparison with hashlib and RFC 7748 / 8439 vectors is included and labelled as such.",
+   note="The leaves (SHA-256 compression, ChaCha20, Poly1305, X25519 ladder) are orion code; their RFC conformance is only sampled by the supplementary vectors.",
+   technique="TLA+ axioms/structural terms + TLC case enumeration replayed on the exported primitives; leaf RFC equality by reference vectors (supplementary)"),
+ "C20": dict(engine="prims", design_ref="DESIGN.md 6 C20, 7",
+   text="Erase.tla enumerates every construct / clone / drop program up to n steps over 3 slots and all constructors with the invariants ErasedAtRelease and LiveUntouched; each program is executed on the real PrivateKey / PayloadKey values with the secret's heap block registered in the harness allocator, which inspects the bytes at the moment the block is released; TLC validates that no block was released dirty, every block was released, and no live object changed.",
+   note="The observation (bytes at dealloc) is a memory-level fact supplied by the harness allocator; only heap blocks are observed (PayloadKey is boxed by the harness)."),
 }
 
 NOT_YET = "check not built yet (work in progress, DESIGN.md section 12)"
@@ -97,6 +108,8 @@ def main():
          "kind_free_text": "Keyring/KeyringContract/LockModel (TLC) -> token sequences / tamper cases -> the tree's keyring.rs compiled into the driver -> Trace_Keyring validation"},
         {"name": "cli", "path": "lib/checks_cli.py", "serves_properties": ["C09", "C12", "C13", "C14", "C16"],
          "kind_free_text": "Cli/CliContract/KeyLife/Argv/Shapes (TLC) -> configurations, histories, argument vectors, input shapes -> real kestrel binary / driver surfaces -> Trace_Cli / Trace_Fuzz validation"},
+        {"name": "prims", "path": "lib/checks_prims.py", "serves_properties": ["C18", "C19", "C20"],
+         "kind_free_text": "Ffi/Rfc/Erase (TLC) -> call shapes, axiom cases, structural terms, erase programs -> cdylib via dlopen / exported primitives / real containers with a watching allocator -> Trace_Prims validation"},
     ]
     m = {"version": 1,
          "setup_cmd": "cd /verif/harness && CARGO_NET_OFFLINE=true cargo build --release --offline",
